@@ -443,10 +443,19 @@ class Check:
 
     def assumptions_of(self, prop_file):
         """Re-run Print Assumptions for every Theorem of the property file (cheap: loads the .vo)."""
-        txt = open(os.path.join(COQ, prop_file)).read()
-        thms = re.findall(r'^Theorem\s+([A-Za-z_0-9\']+)', txt, flags=re.M)
-        mod = prop_file[:-2].replace('/', '.')
-        script = f"From EO Require Import {mod}.\n" + ''.join(f"Print Assumptions {t}.\n" for t in thms)
+        # the property file and every bridge / companion file that was built with it
+        files = [prop_file] + [b for b in getattr(self, 'bridges_built', []) if b != prop_file]
+        thms, script = [], ''
+        for pf in files:
+            txt = open(os.path.join(COQ, pf)).read()
+            names = re.findall(r'^(?:Theorem|Corollary)\s+([A-Za-z_0-9\']+)', txt, flags=re.M)
+            if pf != prop_file:
+                names += re.findall(r'^Lemma\s+(bridge_[A-Za-z_0-9\']+)', txt, flags=re.M)
+            mod = pf[:-2].replace('/', '.')
+            script += f"From EO Require {mod}.\n" + ''.join(f"Print Assumptions EO.{mod}.{t}.\n" for t in names)
+            thms += [f"{mod}.{t}" for t in names]
+        if not thms:
+            self.broken.append(dict(kind='proof-obligation', file=prop_file, lemma=None, msg='no theorem found to print the assumptions of'))
         fn = os.path.join(CASES, f"pa_{self.pid}.v")
         os.makedirs(os.path.dirname(fn), exist_ok=True)
         open(fn, 'w').write(script)
@@ -474,6 +483,14 @@ class Check:
         if sample is not None and len(self.cov['samples']) < 12:
             self.cov['samples'].append({label: sample})
 
+    def harness_failure(self, where, what):
+        """the harness itself could not do something it must always be able to do (build a value for a class, get a driver result ...):
+        whatever depended on it was not checked, so the property is not shown - reported as a broken correspondence, never skipped silently"""
+        self.cov.setdefault('harness_failures', {})
+        self.cov['harness_failures'][where] = self.cov['harness_failures'].get(where, 0) + 1
+        if len([b for b in self.broken if b.get('stream') == 'harness:' + where]) < 3:
+            self.broken.append(dict(kind='correspondence', stream='harness:' + where, msg=str(what)[:400]))
+
     def disagreement(self, stream, case, model=None, impl=None):
         self.broken.append(dict(kind='correspondence', stream=stream, case=case, model=model, impl=impl))
 
@@ -499,6 +516,12 @@ class Check:
     def finish(self, level='proof', search=None):
         """search: callable run when an obligation / correspondence is broken and no violation is known yet;
         it must call self.violation(...) for each failing input it finds on the implementation."""
+        # a check that compared nothing has shown nothing: an empty stream (every case lost, filtered or failed to build) is a broken correspondence
+        for label, st in self.cov.get('streams', {}).items():
+            if st.get('cases', 0) <= 0 and label not in getattr(self, 'optional_streams', ()):
+                self.broken.append(dict(kind='correspondence', stream=label, msg='the stream is empty: nothing was run / compared'))
+        if self.cov.get('evaluations', 0) <= 0:
+            self.broken.append(dict(kind='correspondence', stream='(all)', msg='no evaluation at all was made'))
         if self.broken and not self.violations and search is not None:
             log(f"[{self.pid}] {len(self.broken)} broken obligation(s)/correspondence(s); searching for a failing input")
             search()
